@@ -38,6 +38,8 @@ def _run(params):
     tot = 0.0
     for k in sold:
         v = S[k]['value']
+        if isinstance(v, list) and any(x < 0 for x in v):
+            tot = float('-inf')   # a product with negative "sales" (net electricity below zero): the price clause does not apply
         tot += sum(v) if isinstance(v, list) else 0.0
     if eu == 'chiller' and isinstance(out['cool'], list):
         tot = sum(out['cool'])
@@ -61,14 +63,20 @@ def gen_pairs(rng, n):
         L = rng.choice([3, 20, 30]) if pl == 7 else rng.choice([2, 10, 30])
         base = geo.base_params(econ, eu, pl, L=L, n=rng.choice([1, 2, 4]))
         base['Drawdown Parameter'] = rng.choice([0.0, 0.005, 0.02])
+        if rng.random() < 0.5:
+            geo.diversify(rng, base)
         part = dict(base)
         k = None
         if rel == 'scale':
             k = rng.choice([0.25, 0.5, 2, 3, 10])
             C, O, rate = rng.choice([20, 64, 90]), rng.choice([0.5, 2, 8]), rng.choice([0.05, 0.07, 0.1])
-            base.update({'Total Capital Cost': C, 'Total O&M Cost': O, 'Electricity Rate': rate})
+            # well and stimulation costs are cost inputs too: with redrilling they enter annual O&M besides the fixed total
+            Wc, Sc = rng.choice([2, 4.5]), rng.choice([0.5, 1.25])
+            base.update({'Total Capital Cost': C, 'Total O&M Cost': O, 'Electricity Rate': rate,
+                         'Well Drilling and Completion Capital Cost': Wc, 'Reservoir Stimulation Capital Cost': Sc})
             part = dict(base)
-            part.update({'Total Capital Cost': C * k, 'Total O&M Cost': O * k, 'Electricity Rate': rate * k})
+            part.update({'Total Capital Cost': C * k, 'Total O&M Cost': O * k, 'Electricity Rate': rate * k,
+                         'Well Drilling and Completion Capital Cost': Wc * k, 'Reservoir Stimulation Capital Cost': Sc * k})
             if pl == 7:
                 base['Peaking Fuel Cost Rate'] = 0.03
                 part['Peaking Fuel Cost Rate'] = 0.03 * k
